@@ -126,7 +126,20 @@ fn normalise_mint_redeemers(case: &mut Case) {
 
 pub fn check_case(tape: &[u16], rc: &mut RCase) -> Result<(), Failure> {
     let mut t = Tape::new(tape);
-    let mut case = gen_case(&mut t);
+    let case = gen_case(&mut t);
+    judge_case(case, rc)
+}
+
+/// the data-heavy family: C09's generator (wide variants, integers over the whole i128 range, nested data in
+/// input and mint redeemers) under this check's oracle - the redeemer map must carry exactly that data
+pub fn check_data_case(tape: &[u16], rc: &mut RCase) -> Result<(), Failure> {
+    let mut t = Tape::new(tape);
+    let case = super::c09::gen_case(&mut t);
+    rc.label("family:wide_variant_data");
+    judge_case(case, rc)
+}
+
+fn judge_case(mut case: Case, rc: &mut RCase) -> Result<(), Failure> {
     normalise_mint_redeemers(&mut case);
     let cfg = Cfg { mainnet: case.mainnet, ..Cfg::default() };
     let ev = evaluate(&case, &cfg);
@@ -230,12 +243,17 @@ pub fn run(tier: Tier, seed: u64) -> Report {
         .into();
     r.assumptions = vec!["a mint/burn pair that cancels exactly is excluded (C10's subject)".into()];
     r.explore("redeemers", tier.pick(40_000, 1_000_000), 1200, &|t, rc| check_case(t, rc));
+    r.explore("redeemers_data_heavy", tier.pick(15_000, 400_000), 700, &|t, rc| check_data_case(t, rc));
     r
 }
 
 pub fn replay(phase: &str, tape: &[u16], seed: u64) -> Report {
     let mut r = Report::new("C08", Tier::Quick, seed);
     r.strict = true;
-    r.explore_list(phase, &[tape.to_vec()], &|t, rc| check_case(t, rc));
+    if phase == "redeemers_data_heavy" {
+        r.explore_list(phase, &[tape.to_vec()], &|t, rc| check_data_case(t, rc));
+    } else {
+        r.explore_list(phase, &[tape.to_vec()], &|t, rc| check_case(t, rc));
+    }
     r
 }
